@@ -10,6 +10,7 @@ NForged == Cardinality({ x \in Case : Forgery(x) })
 ASSUME NStrict > 0 /\ NMixed > 0 /\ NForged > 0
 ASSUME PrintT(ToJson([families |-> { [family |-> f, witness |-> Witness(f)] : f \in Inhabited },
                       empty |-> Families \ Inhabited,
+                      cofactored_only |-> { CofShape(x) : x \in { y \in Case : CofOnly(y) } },
                       counts |-> [cases |-> Cardinality(Case), strict |-> NStrict, mixed_accepted |-> NMixed, forgeries |-> NForged]]))
 \* the tables above are evaluated once (ASSUME); no state exploration is needed in this configuration
 OneInit == c = [R |-> <<0, 0>>, A |-> <<0, 0>>, S |-> 0, k |-> 0]
